@@ -400,6 +400,8 @@ def classify_exc(e: BaseException) -> str:
         cur = cur.__cause__ or cur.__context__
     if timed_out:
         return "fuel"
+    if "Cannot rename initializer" in msg:
+        return "nameFixRename"
     if "is still being used by other nodes" in msg:
         return "unsafeRemove"
     if "Multiple versions of opset" in msg:
